@@ -718,12 +718,18 @@ def observed_solve(game, prune, limit=None, sg=None):
     tad = _mods["tad"]
     out = Outcome()
     MON.last_prune = None
+    # the pruning flag is documented as a boolean and used by truthiness: every seventh solve passes it as the int 1 / 0
+    MON.count("solve.calls")
+    flag = prune
+    if MON.counters["solve.calls"] % 7 == 3 and isinstance(prune, bool):
+        flag = int(prune)
+        MON.count("solve.flag_given_as_int")
     try:
         if sg is None:
             sg = tad.StochasticGame(game["rewards"], game["players"], game["transition_list"],
-                                    game["final_states"], prune_states=prune)
+                                    game["final_states"], prune_states=flag)
         else:
-            sg.prune_states = prune
+            sg.prune_states = flag
         reach_calls_before = MON.counters.get("step.vi_reach_calls", 0)
         total_calls_before = MON.counters.get("step.vi_total_calls", 0)
         with budget(limit) as b:
